@@ -173,7 +173,7 @@ fn show_note_c(o: W, n: &Note) -> R {
 }
 fn show_notes_c<E: EndianParse>(o: W, it: NoteIterator<E>) -> R {
     o.write_str("[")?;
-    for (k, n) in it.enumerate() {
+    for (k, n) in Hinted(it).enumerate() {
         sep(o, k)?;
         show_note_c(o, &n)?;
     }
@@ -181,7 +181,7 @@ fn show_notes_c<E: EndianParse>(o: W, it: NoteIterator<E>) -> R {
 }
 fn show_list<T: Show>(o: W, it: impl Iterator<Item = T>) -> R {
     o.write_str("[")?;
-    for (k, x) in it.enumerate() {
+    for (k, x) in Hinted(it).enumerate() {
         sep(o, k)?;
         x.show(o)?;
     }
@@ -223,7 +223,7 @@ fn show_symver_c<E: EndianParse>(o: W, t: &elf::gnu_symver::SymbolVersionTable<E
             None => o.write_str("none"),
             Some(d) => {
                 write!(o, "def({} {} {} [", d.hash, d.flags, d.hidden as u8)?;
-                for (k, n) in d.names.enumerate() {
+                for (k, n) in Hinted(d.names).enumerate() {
                     sep(o, k)?;
                     show_res(o, n, |o, s| hexs(o, s.as_bytes()))?;
                 }
